@@ -1,6 +1,8 @@
 (* C15, collection phase: invariants of the transition system Model/MultiQ.v over ALL interleavings
    and any number of workers: nothing is lost, nothing is duplicated, every run is finite, no
-   reachable state is stuck before the main thread has returned. *)
+   reachable state is stuck before the main thread has returned or panicked.
+   [fx] is the Section variable drop_tx of the model: true = the repaired code (the main thread
+   drops its own Sender), false = v0.  Everything that does not mention [fx = true] holds for both. *)
 From Coq Require Import List ZArith Bool Lia Permutation Sorted String.
 From DD Require Import Model.MultiQ Proofs.MultiQSort.
 Import ListNotations.
@@ -11,12 +13,13 @@ Section Inv.
   Variable panics : mq_query -> bool.
   Variable rcmp : R -> R -> comparison.
   Variable rshow : R -> string.
+  Variable fx : bool.
   Notation res := (nat * list Z * R)%type.
   Notation state := (mq_state R).
-  Notation step := (mq_step R answer panics rcmp rshow).
-  Notation run := (mq_run R answer panics rcmp rshow).
-  Notation valid_event := (mq_valid_event R answer panics rcmp rshow).
-  Notation replay := (mq_replay R answer panics rcmp rshow).
+  Notation step := (mq_step R answer panics rcmp rshow fx).
+  Notation run := (mq_run R answer panics rcmp rshow fx).
+  Notation valid_event := (mq_valid_event R answer panics rcmp rshow fx).
+  Notation replay := (mq_replay R answer panics rcmp rshow fx).
   Notation init := (mq_init R).
   Notation expected := (mq_expected answer).
 
@@ -25,33 +28,43 @@ Section Inv.
   Lemma valid_event_step : forall s e s', valid_event s e = Some s' <-> step s e s'.
   Proof.
     intros [Q ws ch rs pc] e s'. split.
-    - intros H. destruct e as [w i|w|w i|i|w i| |]; cbn [mq_valid_event] in H.
-      + destruct (nth_error ws w) as [[| |]|] eqn:Hw; try discriminate.
+    - intros H. destruct e as [w i|w|w i|i|w i| | | |w]; cbn [mq_valid_event] in H.
+      + destruct (nth_error ws w) as [[| | |]|] eqn:Hw; try discriminate.
         destruct Q as [|[i' q] Q']; try discriminate.
         destruct (Nat.eqb_spec i i') as [->|]; try discriminate.
         injection H as <-. now constructor.
-      + destruct (nth_error ws w) as [[| |]|] eqn:Hw; try discriminate.
+      + destruct (nth_error ws w) as [[| | |]|] eqn:Hw; try discriminate.
         destruct Q; try discriminate. injection H as <-. now constructor.
-      + destruct (nth_error ws w) as [[|i' q|]|] eqn:Hw; try discriminate.
+      + destruct (nth_error ws w) as [[|i' q| |]|] eqn:Hw; try discriminate.
         destruct (Nat.eqb_spec i i') as [->|]; cbn [andb] in H; try discriminate.
         destruct (panics q) eqn:Hp; cbn [negb] in H; try discriminate.
         injection H as <-. now constructor.
       + destruct ch as [|[[i' q] r] ch']; try discriminate.
-        destruct pc as [[|k]| |]; try discriminate.
+        destruct pc as [[|k]| | |]; try discriminate.
         destruct (Nat.eqb_spec i i') as [->|]; try discriminate.
         injection H as <-. constructor.
-      + destruct (nth_error ws w) as [[|i' q|]|] eqn:Hw; try discriminate.
+      + destruct (nth_error ws w) as [[|i' q| |]|] eqn:Hw; try discriminate.
         destruct (Nat.eqb_spec i i') as [->|]; cbn [andb] in H; try discriminate.
         destruct (panics q) eqn:Hp; try discriminate.
         injection H as <-. eapply step_die; eassumption.
-      + destruct pc as [[|k]| |]; try discriminate. injection H as <-. constructor.
-      + destruct pc as [k|out|out]; try discriminate.
+      + destruct pc as [[|k]| | |]; try discriminate. injection H as <-. constructor.
+      + destruct pc as [k|out|out|o]; try discriminate.
         destruct (forallb mq_is_exited ws) eqn:Hall; try discriminate.
         injection H as <-. now constructor.
+      + destruct ch as [|x ch']; try discriminate.
+        destruct pc as [[|k]| | |]; try discriminate.
+        destruct fx eqn:Hfx; cbn [andb] in H; try discriminate.
+        destruct (forallb mq_is_done ws) eqn:Hall; try discriminate.
+        injection H as <-. now constructor.
+      + destruct pc as [k|out|out|o]; try discriminate.
+        destruct (nth_error ws w) as [[|i q| |i q]|] eqn:Hw; try discriminate.
+        destruct (forallb mq_is_exited (firstn w ws)) eqn:Hall; try discriminate.
+        injection H as <-. eapply step_join_dead; eassumption.
     - intros H. inversion H as
         [Q0 ws0 ch0 rs0 pc0 w i q Hw | ws0 ch0 rs0 pc0 w Hw | Q0 ws0 ch0 rs0 pc0 w i q Hw Hp
          | Q0 ws0 ch0 rs0 pc0 w i q Hw Hp
-         | Q0 ws0 ch0 rs0 k i q r | Q0 ws0 ch0 rs0 | Q0 ws0 ch0 rs0 out Hall]; subst;
+         | Q0 ws0 ch0 rs0 k i q r | Q0 ws0 ch0 rs0 | Q0 ws0 ch0 rs0 out Hall
+         | Q0 ws0 rs0 k Hfx Hall | Q0 ws0 ch0 rs0 out w i q Hw Hall]; subst;
         cbn [mq_valid_event].
       + rewrite Hw, Nat.eqb_refl. reflexivity.
       + rewrite Hw. reflexivity.
@@ -60,6 +73,8 @@ Section Inv.
       + rewrite Nat.eqb_refl. reflexivity.
       + reflexivity.
       + rewrite Hall. reflexivity.
+      + rewrite Hall. reflexivity.
+      + rewrite Hw, Hall. reflexivity.
   Qed.
 
   Lemma replay_run : forall tr s s', replay s tr = Some s' <-> run s tr s'.
@@ -89,14 +104,16 @@ Section Inv.
 
   (* ---------- the conservation invariant ---------- *)
 
-  Definition busy_res (x : mq_wst) : list res :=
-    match x with WBusy i q => [(i, q, answer q)] | _ => [] end.
+  (* the item a worker holds (WBusy) or has taken with it when it died (WDied) *)
+  Definition held_res (x : mq_wst) : list res :=
+    match x with WBusy i q | WDied i q => [(i, q, answer q)] | _ => [] end.
 
   (* every work item is at exactly one place: already collected, in the channel, in the hands of a
-     worker, or still in the queue *)
+     worker (alive or dead), or still in the queue *)
   Definition in_flight (s : state) : list res :=
-    mq_results s ++ mq_chan s ++ flat_map busy_res (mq_workers s) ++ expected (mq_queue s).
+    mq_results s ++ mq_chan s ++ flat_map held_res (mq_workers s) ++ expected (mq_queue s).
 
+  (* no hypothesis about panics: the invariant holds in every reachable state of both systems *)
   Definition Inv (W : list mq_item) (j : nat) (s : state) : Prop :=
     Permutation (expected W) (in_flight s)
     /\ (forall k, mq_main s = PCollect k -> List.length (mq_results s) + k = List.length W)
@@ -105,16 +122,18 @@ Section Inv.
           /\ List.length (mq_results s) = List.length W)
     /\ (In WExited (mq_workers s) -> mq_queue s = [])
     /\ List.length (mq_workers s) = j
-    /\ (forall it, In it (mq_queue s) -> panics (snd it) = false)
-    /\ (forall i q, In (WBusy i q) (mq_workers s) -> panics q = false).
+    /\ (forall i q, In (WDied i q) (mq_workers s) -> panics q = true)
+    /\ (forall r, In r (mq_results s ++ mq_chan s) -> panics (snd (fst r)) = false).
 
   (* no query of the file makes the operation panic *)
   Definition no_panic (W : list mq_item) : Prop := forall it, In it W -> panics (snd it) = false.
+  (* some query of the file does *)
+  Definition some_panic (W : list mq_item) : Prop := exists it, In it W /\ panics (snd it) = true.
 
-  Lemma upd_busy : forall ws w old x,
+  Lemma upd_held : forall ws w old x,
     nth_error ws w = Some old ->
-    Permutation (busy_res old ++ flat_map busy_res (mq_upd ws w x))
-                (busy_res x ++ flat_map busy_res ws).
+    Permutation (held_res old ++ flat_map held_res (mq_upd ws w x))
+                (held_res x ++ flat_map held_res ws).
   Proof.
     intros ws. induction ws as [|y ws IH]; intros w old x Hn.
     - destruct w; discriminate.
@@ -140,52 +159,52 @@ Section Inv.
       apply IH in Hin. destruct Hin; [now left|right; now right].
   Qed.
 
-  Lemma init_inv : forall W j, no_panic W -> Inv W j (init W j).
+  Lemma init_inv : forall W j, Inv W j (init W j).
   Proof.
-    intros W j Hnp. unfold Inv, mq_init, in_flight.
+    intros W j. unfold Inv, mq_init, in_flight.
     cbn [mq_results mq_chan mq_workers mq_queue mq_main mq_output app List.length].
     split; [|split; [|split; [|split; [|split; [|split]]]]].
-    - assert (Hf : flat_map busy_res (repeat WIdle j) = []).
-      { induction j as [|j IH]; cbn [repeat flat_map busy_res app]; [reflexivity|exact IH]. }
+    - assert (Hf : flat_map held_res (repeat WIdle j) = []).
+      { induction j as [|j IH]; cbn [repeat flat_map held_res app]; [reflexivity|exact IH]. }
       rewrite Hf. apply Permutation_refl.
     - intros k Hk. injection Hk as <-. reflexivity.
     - intros out Ho. discriminate.
     - intros Hin. apply repeat_spec in Hin. discriminate.
     - apply repeat_length.
-    - exact Hnp.
     - intros i q Hin. apply repeat_spec in Hin. discriminate.
+    - intros r [].
   Qed.
 
   Lemma step_inv : forall W j s e s', Inv W j s -> step s e s' -> Inv W j s'.
   Proof.
-    intros W j s e s' (Hperm & Hcnt & Hout & Hex & Hlen & Hqn & Hbn) Hst.
+    intros W j s e s' (Hperm & Hcnt & Hout & Hex & Hlen & Hdn & Hsn) Hst.
     inversion Hst as
       [Q ws ch rs pc w i q Hw | ws ch rs pc w Hw | Q ws ch rs pc w i q Hw Hp
        | Q ws ch rs pc w i q Hw Hp
-       | Q ws ch rs k i q r | Q ws ch rs | Q ws ch rs out Hall]; subst;
+       | Q ws ch rs k i q r | Q ws ch rs | Q ws ch rs out Hall
+       | Q ws rs k Hfx Hall | Q ws ch rs out w i q Hw Hall]; subst;
       unfold Inv, in_flight in *;
       cbn [mq_results mq_chan mq_workers mq_queue mq_main mq_output] in *.
     - (* pull *)
-      pose proof (upd_busy ws w WIdle (WBusy i q) Hw) as Hu. cbn [busy_res app] in Hu.
+      pose proof (upd_held ws w WIdle (WBusy i q) Hw) as Hu. cbn [held_res app] in Hu.
       split; [|split; [|split; [|split; [|split; [|split]]]]].
       + eapply perm_trans; [exact Hperm|].
         apply Permutation_app_head, Permutation_app_head.
         cbn [mq_expected map]. fold (mq_expected answer Q).
         eapply perm_trans; [apply Permutation_sym, Permutation_middle|].
-        change (mq_result_of answer (i, q) :: flat_map busy_res ws ++ expected Q)
-          with (((i, q, answer q) :: flat_map busy_res ws) ++ expected Q).
+        change (mq_result_of answer (i, q) :: flat_map held_res ws ++ expected Q)
+          with (((i, q, answer q) :: flat_map held_res ws) ++ expected Q).
         apply Permutation_app_tail, Permutation_sym, Hu.
       + exact Hcnt.
       + exact Hout.
       + intros Hin. apply upd_in in Hin. destruct Hin as [Hin|Hin]; [discriminate|].
         specialize (Hex Hin). discriminate.
       + now rewrite upd_length.
-      + intros it Hin. apply Hqn. now right.
-      + intros i' q' Hin. apply upd_in in Hin. destruct Hin as [Hin|Hin].
-        * injection Hin as -> ->. apply (Hqn (i, q)). now left.
-        * now apply (Hbn i' q').
+      + intros i' q' Hin. apply upd_in in Hin. destruct Hin as [Hin|Hin]; [discriminate|].
+        now apply (Hdn i' q').
+      + exact Hsn.
     - (* pull-none *)
-      pose proof (upd_busy ws w WIdle WExited Hw) as Hu. cbn [busy_res app] in Hu.
+      pose proof (upd_held ws w WIdle WExited Hw) as Hu. cbn [held_res app] in Hu.
       split; [|split; [|split; [|split; [|split; [|split]]]]].
       + eapply perm_trans; [exact Hperm|].
         apply Permutation_app_head, Permutation_app_head, Permutation_app_tail, Permutation_sym, Hu.
@@ -193,27 +212,41 @@ Section Inv.
       + exact Hout.
       + reflexivity.
       + now rewrite upd_length.
-      + exact Hqn.
       + intros i' q' Hin. apply upd_in in Hin. destruct Hin as [Hin|Hin]; [discriminate|].
-        now apply (Hbn i' q').
+        now apply (Hdn i' q').
+      + exact Hsn.
     - (* send *)
-      pose proof (upd_busy ws w (WBusy i q) WIdle Hw) as Hu. cbn [busy_res app] in Hu.
+      pose proof (upd_held ws w (WBusy i q) WIdle Hw) as Hu. cbn [held_res app] in Hu.
       split; [|split; [|split; [|split; [|split; [|split]]]]].
       + eapply perm_trans; [exact Hperm|].
         apply Permutation_app_head. rewrite <- app_assoc. apply Permutation_app_head.
         cbn [app].
-        change ((i, q, answer q) :: flat_map busy_res (mq_upd ws w WIdle) ++ expected Q)
-          with (((i, q, answer q) :: flat_map busy_res (mq_upd ws w WIdle)) ++ expected Q).
+        change ((i, q, answer q) :: flat_map held_res (mq_upd ws w WIdle) ++ expected Q)
+          with (((i, q, answer q) :: flat_map held_res (mq_upd ws w WIdle)) ++ expected Q).
         apply Permutation_app_tail, Permutation_sym, Hu.
       + exact Hcnt.
       + exact Hout.
       + intros Hin. apply upd_in in Hin. destruct Hin as [Hin|Hin]; [discriminate|]. now apply Hex.
       + now rewrite upd_length.
-      + exact Hqn.
       + intros i' q' Hin. apply upd_in in Hin. destruct Hin as [Hin|Hin]; [discriminate|].
-        now apply (Hbn i' q').
-    - (* die: excluded by the invariant *)
-      exfalso. apply nth_error_In in Hw. rewrite (Hbn i q Hw) in Hp. discriminate.
+        now apply (Hdn i' q').
+      + intros r Hin. rewrite app_assoc in Hin. apply in_app_or in Hin. destruct Hin as [Hin|Hin].
+        * now apply Hsn.
+        * destruct Hin as [<-|[]]. exact Hp.
+    - (* die: the item stays with the dead worker *)
+      pose proof (upd_held ws w (WBusy i q) (WDied i q) Hw) as Hu. cbn [held_res app] in Hu.
+      apply Permutation_cons_inv in Hu.
+      split; [|split; [|split; [|split; [|split; [|split]]]]].
+      + eapply perm_trans; [exact Hperm|].
+        apply Permutation_app_head, Permutation_app_head, Permutation_app_tail, Permutation_sym, Hu.
+      + exact Hcnt.
+      + exact Hout.
+      + intros Hin. apply upd_in in Hin. destruct Hin as [Hin|Hin]; [discriminate|]. now apply Hex.
+      + now rewrite upd_length.
+      + intros i' q' Hin. apply upd_in in Hin. destruct Hin as [Hin|Hin].
+        * injection Hin as -> ->. exact Hp.
+        * now apply (Hdn i' q').
+      + exact Hsn.
     - (* recv *)
       split; [|split; [|split; [|split; [|split; [|split]]]]].
       + rewrite <- app_assoc. cbn [app]. exact Hperm.
@@ -222,8 +255,8 @@ Section Inv.
       + intros out Ho. discriminate.
       + exact Hex.
       + reflexivity.
-      + exact Hqn.
-      + exact Hbn.
+      + exact Hdn.
+      + intros r' Hin. apply Hsn. rewrite <- app_assoc in Hin. exact Hin.
     - (* write *)
       split; [|split; [|split; [|split; [|split; [|split]]]]].
       + exact Hperm.
@@ -232,8 +265,8 @@ Section Inv.
         specialize (Hcnt 0 eq_refl). lia.
       + exact Hex.
       + reflexivity.
-      + exact Hqn.
-      + exact Hbn.
+      + exact Hdn.
+      + exact Hsn.
     - (* join *)
       split; [|split; [|split; [|split; [|split; [|split]]]]].
       + exact Hperm.
@@ -241,8 +274,26 @@ Section Inv.
       + intros out' Ho. injection Ho as <-. exact (Hout out eq_refl).
       + exact Hex.
       + reflexivity.
-      + exact Hqn.
-      + exact Hbn.
+      + exact Hdn.
+      + exact Hsn.
+    - (* closed *)
+      split; [|split; [|split; [|split; [|split; [|split]]]]].
+      + exact Hperm.
+      + intros k' Hk. discriminate.
+      + intros out Ho. discriminate.
+      + exact Hex.
+      + reflexivity.
+      + exact Hdn.
+      + exact Hsn.
+    - (* join-dead *)
+      split; [|split; [|split; [|split; [|split; [|split]]]]].
+      + exact Hperm.
+      + intros k Hk. discriminate.
+      + intros out' Ho. injection Ho as <-. exact (Hout out eq_refl).
+      + exact Hex.
+      + reflexivity.
+      + exact Hdn.
+      + exact Hsn.
   Qed.
 
   Lemma run_inv : forall W j s tr s', Inv W j s -> run s tr s' -> Inv W j s'.
@@ -251,21 +302,59 @@ Section Inv.
     apply IH. eapply step_inv; eauto.
   Qed.
 
-  Lemma reachable_inv : forall W j tr s, no_panic W -> run (init W j) tr s -> Inv W j s.
-  Proof. intros W j tr s Hnp Hr. eapply run_inv; [now apply init_inv|exact Hr]. Qed.
+  Lemma reachable_inv : forall W j tr s, run (init W j) tr s -> Inv W j s.
+  Proof. intros W j tr s Hr. eapply run_inv; [apply init_inv|exact Hr]. Qed.
+
+  (* whatever is in flight is an item of the file *)
+  Lemma in_flight_item : forall W j s i q r,
+    Inv W j s -> In (i, q, r) (in_flight s) -> In (i, q) W.
+  Proof.
+    intros W j s i q r (Hperm & _) Hin.
+    apply (Permutation_in _ (Permutation_sym Hperm)) in Hin.
+    unfold mq_expected in Hin. apply in_map_iff in Hin. destruct Hin as [[i' q'] [Heq Hin]].
+    unfold mq_result_of in Heq. cbn [fst snd] in Heq. injection Heq as -> -> _. exact Hin.
+  Qed.
+
+  Lemma held_in_flight : forall (s : state) x r,
+    In x (mq_workers s) -> In r (held_res x) -> In r (in_flight s).
+  Proof.
+    intros s x r Hx Hr. unfold in_flight. apply in_or_app. right. apply in_or_app. right.
+    apply in_or_app. left. apply in_flat_map. exists x. split; assumption.
+  Qed.
+
+  (* under no_panic no worker ever dies and no worker holds a panicking query *)
+  Lemma np_no_died : forall W j s i q,
+    Inv W j s -> no_panic W -> In (WDied i q) (mq_workers s) -> False.
+  Proof.
+    intros W j s i q Hi Hnp Hin.
+    assert (HW : In (i, q) W).
+    { apply (in_flight_item W j s i q (answer q) Hi).
+      eapply held_in_flight; [exact Hin|]. now left. }
+    destruct Hi as (_ & _ & _ & _ & _ & Hdn & _).
+    specialize (Hdn i q Hin). specialize (Hnp (i, q) HW). cbn [snd] in Hnp.
+    rewrite Hnp in Hdn. discriminate.
+  Qed.
+
+  Lemma np_busy : forall W j s i q,
+    Inv W j s -> no_panic W -> In (WBusy i q) (mq_workers s) -> panics q = false.
+  Proof.
+    intros W j s i q Hi Hnp Hin.
+    apply (Hnp (i, q)). apply (in_flight_item W j s i q (answer q) Hi).
+    eapply held_in_flight; [exact Hin|]. now left.
+  Qed.
 
   (* all results collected -> nothing is anywhere else *)
   Lemma full_results : forall W j s,
     Inv W j s -> List.length (mq_results s) = List.length W ->
     Permutation (mq_results s) (expected W)
-    /\ mq_chan s = [] /\ flat_map busy_res (mq_workers s) = [] /\ mq_queue s = [].
+    /\ mq_chan s = [] /\ flat_map held_res (mq_workers s) = [] /\ mq_queue s = [].
   Proof.
     intros W j s (Hperm & _) Hl. unfold in_flight in Hperm.
     pose proof (Permutation_length Hperm) as Hlen.
     unfold mq_expected in Hlen at 1. rewrite map_length in Hlen.
     rewrite !app_length in Hlen.
     assert (Hc : mq_chan s = []) by (apply length_zero_iff_nil; lia).
-    assert (Hb : flat_map busy_res (mq_workers s) = []) by (apply length_zero_iff_nil; lia).
+    assert (Hb : flat_map held_res (mq_workers s) = []) by (apply length_zero_iff_nil; lia).
     assert (Hq : mq_queue s = []).
     { destruct (mq_queue s) as [|x Q]; [reflexivity|].
       unfold mq_expected in Hlen. cbn [map List.length] in Hlen. lia. }
@@ -274,22 +363,21 @@ Section Inv.
     now apply Permutation_sym.
   Qed.
 
-  (* C15_collect *)
+  (* C15_collect (no hypothesis on panics: PCollect 0 means that all |W| results have arrived) *)
   Lemma collect : forall W j tr s,
-    no_panic W ->
     run (init W j) tr s -> mq_main s = PCollect 0 -> Permutation (mq_results s) (expected W).
   Proof.
-    intros W j tr s Hnp Hr Hpc. pose proof (reachable_inv W j tr s Hnp Hr) as Hi.
+    intros W j tr s Hr Hpc. pose proof (reachable_inv W j tr s Hr) as Hi.
     pose proof Hi as (_ & Hcnt & _). specialize (Hcnt 0 Hpc).
     apply (full_results W j s Hi). lia.
   Qed.
 
   (* C15_byte_identical *)
   Lemma byte_identical : forall W j tr s out,
-    mq_file_order W -> no_panic W -> run (init W j) tr s -> mq_output s = Some out ->
+    mq_file_order W -> run (init W j) tr s -> mq_output s = Some out ->
     out = mq_render_single answer rshow W.
   Proof.
-    intros W j tr s out Hfo Hnp Hr Ho. pose proof (reachable_inv W j tr s Hnp Hr) as Hi.
+    intros W j tr s out Hfo Hr Ho. pose proof (reachable_inv W j tr s Hr) as Hi.
     pose proof Hi as (_ & _ & Hout & _). destruct (Hout out Ho) as [-> Hl].
     destruct (full_results W j s Hi Hl) as (Hp & _).
     now apply sorted_output.
@@ -297,13 +385,35 @@ Section Inv.
 
   (* the same, starting from the text of the query file *)
   Lemma file_byte_identical : forall content W j tr s out,
-    mq_parse_file content = Some W -> no_panic W -> run (init W j) tr s -> mq_output s = Some out ->
+    mq_parse_file content = Some W -> run (init W j) tr s -> mq_output s = Some out ->
     out = mq_render_single answer rshow W
     /\ List.length W = List.length (mq_file_lines content).
   Proof.
-    intros content W j tr s out Hp Hnp Hr Ho. unfold mq_parse_file in Hp. split.
+    intros content W j tr s out Hp Hr Ho. unfold mq_parse_file in Hp. split.
     - eapply byte_identical; eauto. eapply mq_parse_lines_file_order; eauto.
     - eapply mq_parse_lines_length; eauto.
+  Qed.
+
+  (* an output exists only if no query of the file panics: a panicking query is never sent, so the
+     main thread never gets |W| results, never sorts and never writes *)
+  Lemma output_no_panic : forall W j tr s out,
+    run (init W j) tr s -> mq_output s = Some out -> no_panic W.
+  Proof.
+    intros W j tr s out Hr Ho [i q] Hin. cbn [snd].
+    pose proof (reachable_inv W j tr s Hr) as Hi.
+    pose proof Hi as (_ & _ & Hout & _ & _ & _ & Hsn). destruct (Hout out Ho) as [_ Hl].
+    destruct (full_results W j s Hi Hl) as (Hp & _).
+    assert (Hr' : In (i, q, answer q) (mq_results s)).
+    { eapply Permutation_in; [apply Permutation_sym, Hp|].
+      unfold mq_expected. apply in_map_iff. exists (i, q). split; [reflexivity|exact Hin]. }
+    apply (Hsn (i, q, answer q)). apply in_or_app. now left.
+  Qed.
+
+  Lemma some_panic_no_output : forall W j tr s,
+    some_panic W -> run (init W j) tr s -> mq_output s = None.
+  Proof.
+    intros W j tr s (it & Hin & Hp) Hr. destruct (mq_output s) as [out|] eqn:Ho; [|reflexivity].
+    pose proof (output_no_panic W j tr s out Hr Ho it Hin) as Hnp. rewrite Hnp in Hp. discriminate.
   Qed.
 
   (* ---------- every run is finite ---------- *)
@@ -325,13 +435,16 @@ Section Inv.
     inversion Hst as
       [Q ws ch rs pc w i q Hw | ws ch rs pc w Hw | Q ws ch rs pc w i q Hw Hp
        | Q ws ch rs pc w i q Hw Hp
-       | Q ws ch rs k i q r | Q ws ch rs | Q ws ch rs out Hall]; subst;
+       | Q ws ch rs k i q r | Q ws ch rs | Q ws ch rs out Hall
+       | Q ws rs k Hfx Hall | Q ws ch rs out w i q Hw Hall]; subst;
       unfold mq_measure; cbn [mq_results mq_chan mq_workers mq_queue mq_main List.length mq_pcweight].
     - pose proof (upd_weight ws w WIdle (WBusy i q) Hw) as Hu. cbn [mq_wweight] in Hu. lia.
     - pose proof (upd_weight ws w WIdle WExited Hw) as Hu. cbn [mq_wweight] in Hu. lia.
     - pose proof (upd_weight ws w (WBusy i q) WIdle Hw) as Hu. cbn [mq_wweight] in Hu.
       rewrite app_length. cbn [List.length]. lia.
-    - pose proof (upd_weight ws w (WBusy i q) WExited Hw) as Hu. cbn [mq_wweight] in Hu. lia.
+    - pose proof (upd_weight ws w (WBusy i q) (WDied i q) Hw) as Hu. cbn [mq_wweight] in Hu. lia.
+    - lia.
+    - lia.
     - lia.
     - lia.
     - lia.
@@ -365,56 +478,129 @@ Section Inv.
   Lemma workers_cases : forall ws : list mq_wst,
     (exists w i q, nth_error ws w = Some (WBusy i q))
     \/ (exists w, nth_error ws w = Some WIdle)
-    \/ forallb mq_is_exited ws = true.
+    \/ forallb mq_is_done ws = true.
   Proof.
     intros ws. induction ws as [|x ws IH].
     - right. right. reflexivity.
-    - destruct x as [|i q|].
+    - destruct x as [|i q| |i q].
       + right. left. exists 0. reflexivity.
       + left. exists 0, i, q. reflexivity.
       + destruct IH as [(w & i & q & H)|[(w & H)|H]].
         * left. exists (S w), i, q. exact H.
         * right. left. exists (S w). exact H.
-        * right. right. cbn [forallb mq_is_exited]. exact H.
+        * right. right. cbn [forallb mq_is_done]. exact H.
+      + destruct IH as [(w & i' & q' & H)|[(w & H)|H]].
+        * left. exists (S w), i', q'. exact H.
+        * right. left. exists (S w). exact H.
+        * right. right. cbn [forallb mq_is_done]. exact H.
   Qed.
 
+  (* all threads have ended: either all of them normally, or there is a first dead one *)
+  Lemma done_cases : forall ws : list mq_wst,
+    forallb mq_is_done ws = true ->
+    forallb mq_is_exited ws = true
+    \/ exists w i q, nth_error ws w = Some (WDied i q) /\ forallb mq_is_exited (firstn w ws) = true.
+  Proof.
+    intros ws. induction ws as [|x ws IH]; intros H; [now left|].
+    cbn [forallb] in H. apply andb_true_iff in H. destruct H as [Hx H].
+    destruct x as [|i q| |i q]; try discriminate.
+    - destruct (IH H) as [Hall|(w & i & q & Hw & Hall)].
+      + left. cbn [forallb mq_is_exited]. exact Hall.
+      + right. exists (S w), i, q. split; [exact Hw|]. cbn [firstn forallb mq_is_exited]. exact Hall.
+    - right. exists 0, i, q. split; reflexivity.
+  Qed.
+
+  Lemma done_no_held_exited : forall ws : list mq_wst,
+    forallb mq_is_done ws = true -> (forall i q, ~ In (WDied i q) ws) ->
+    forallb mq_is_exited ws = true /\ flat_map held_res ws = [].
+  Proof.
+    intros ws. induction ws as [|x ws IH]; intros H Hnd; [split; reflexivity|].
+    cbn [forallb] in H. apply andb_true_iff in H. destruct H as [Hx H].
+    destruct x as [|i q| |i q]; try discriminate.
+    - destruct (IH H) as [Ha Hb]; [intros i q Hin; apply (Hnd i q); now right|].
+      split; [cbn [forallb mq_is_exited]; exact Ha|cbn [flat_map held_res app]; exact Hb].
+    - exfalso. apply (Hnd i q). now left.
+  Qed.
+
+  (* without a panicking query and with at least one worker, the main thread cannot find the
+     channel closed while it still waits for a result *)
+  Lemma np_not_closed : forall W j Q ws rs k,
+    1 <= j -> no_panic W -> Inv W j (MQState Q ws [] rs (PCollect (S k))) ->
+    forallb mq_is_done ws = true -> False.
+  Proof.
+    intros W j Q ws rs k Hj Hnp Hi H.
+    destruct (done_no_held_exited ws H) as [Hall Hb].
+    { intros i q Hin. apply (np_no_died W j _ i q Hi Hnp). exact Hin. }
+    destruct Hi as (Hperm & Hcnt & _ & Hex & Hlen & _).
+    cbn [mq_results mq_chan mq_workers mq_queue mq_main] in *.
+    assert (HQ : Q = []).
+    { apply Hex. destruct ws as [|x ws]; [cbn [List.length] in Hlen; lia|].
+      cbn [forallb] in Hall. apply andb_true_iff in Hall. destruct Hall as [Hx _].
+      destruct x; try discriminate. now left. }
+    unfold in_flight in Hperm. cbn [mq_results mq_chan mq_workers mq_queue] in Hperm.
+    rewrite HQ, Hb in Hperm. cbn [mq_expected map app] in Hperm. rewrite app_nil_r in Hperm.
+    apply Permutation_length in Hperm. unfold mq_expected in Hperm. rewrite map_length in Hperm.
+    specialize (Hcnt (S k) eq_refl). lia.
+  Qed.
+
+  (* ... hence (both systems) the main thread never panics *)
+  Lemma np_step_not_panicked : forall W j s e s',
+    1 <= j -> no_panic W -> Inv W j s -> step s e s' ->
+    (forall o, mq_main s <> PPanicked o) -> forall o, mq_main s' <> PPanicked o.
+  Proof.
+    intros W j s e s' Hj Hnp Hi Hst Hn o.
+    inversion Hst as
+      [Q ws ch rs pc w i q Hw | ws ch rs pc w Hw | Q ws ch rs pc w i q Hw Hp
+       | Q ws ch rs pc w i q Hw Hp
+       | Q ws ch rs k i q r | Q ws ch rs | Q ws ch rs out Hall
+       | Q ws rs k Hfx Hall | Q ws ch rs out w i q Hw Hall]; subst;
+      cbn [mq_main] in *; try (apply Hn); try discriminate.
+    - exfalso. eapply np_not_closed; eauto.
+    - exfalso. apply (np_no_died W j _ i q Hi Hnp). cbn [mq_workers]. eapply nth_error_In; eauto.
+  Qed.
+
+  Lemma np_run_not_panicked : forall W j s tr s',
+    1 <= j -> no_panic W -> Inv W j s -> run s tr s' ->
+    (forall o, mq_main s <> PPanicked o) -> forall o, mq_main s' <> PPanicked o.
+  Proof.
+    intros W j s tr s' Hj Hnp Hi Hr. induction Hr as [s|s e s1 tr s2 Hst Hr IH]; intros Hn; [exact Hn|].
+    apply IH; [eapply step_inv; eauto|eapply np_step_not_panicked; eauto].
+  Qed.
+
+  Lemma np_not_panicked : forall W j tr s,
+    1 <= j -> no_panic W -> run (init W j) tr s -> forall o, mq_main s <> PPanicked o.
+  Proof.
+    intros W j tr s Hj Hnp Hr. eapply np_run_not_panicked; eauto; [apply init_inv|].
+    intros o. discriminate.
+  Qed.
+
+  (* C15_no_deadlock *)
   Lemma progress : forall W j tr s,
     1 <= j -> no_panic W -> run (init W j) tr s -> (forall out, mq_main s <> PJoined out) ->
     exists e s', step s e s'.
   Proof.
-    intros W j tr s Hj Hnp Hr Hnj. pose proof (reachable_inv W j tr s Hnp Hr) as Hi.
+    intros W j tr s Hj Hnp Hr Hnj. pose proof (reachable_inv W j tr s Hr) as Hi.
+    pose proof (np_not_panicked W j tr s Hj Hnp Hr) as Hnpk.
     assert (Hbusy : forall w i q, nth_error (mq_workers s) w = Some (WBusy i q) -> panics q = false).
-    { intros w i q Hw. destruct Hi as (_ & _ & _ & _ & _ & _ & Hbn). apply (Hbn i q).
-      eapply nth_error_In; eauto. }
+    { intros w i q Hw. apply (np_busy W j s i q Hi Hnp). eapply nth_error_In; eauto. }
+    assert (Hdied : forall i q, ~ In (WDied i q) (mq_workers s)).
+    { intros i q Hin. exact (np_no_died W j s i q Hi Hnp Hin). }
     destruct s as [Q ws ch rs pc].
-    cbn [mq_main mq_workers] in Hnj, Hbusy.
-    destruct pc as [[|k]|out|out].
+    cbn [mq_main mq_workers] in Hnj, Hbusy, Hdied, Hnpk.
+    destruct pc as [[|k]|out|out|o].
     - eexists. eexists. apply step_write.
     - destruct ch as [|[[i q] r] ch].
       + destruct (workers_cases ws) as [(w & i & q & H)|[(w & H)|H]].
         * eexists. eexists. apply step_send; [exact H|eapply Hbusy; eauto].
         * destruct Q as [|[i q] Q]; eexists; eexists; [apply step_pull_none|apply step_pull]; exact H.
-        * exfalso.
-          pose proof Hi as (Hperm & Hcnt & _ & Hex & Hlen & _).
-          cbn [mq_results mq_chan mq_workers mq_queue mq_main] in *.
-          assert (HQ : Q = []).
-          { apply Hex. destruct ws as [|x ws]; [cbn [List.length] in Hlen; lia|].
-            cbn [forallb] in H. apply andb_true_iff in H. destruct H as [H _].
-            destruct x; try discriminate. now left. }
-          assert (Hb : flat_map busy_res ws = []).
-          { clear -H. induction ws as [|x ws IH]; [reflexivity|].
-            cbn [forallb] in H. apply andb_true_iff in H. destruct H as [Hx H].
-            destruct x; try discriminate. cbn [flat_map busy_res app]. now apply IH. }
-          unfold in_flight in Hperm. cbn [mq_results mq_chan mq_workers mq_queue] in Hperm.
-          rewrite HQ, Hb in Hperm. cbn [mq_expected map app] in Hperm. rewrite app_nil_r in Hperm.
-          apply Permutation_length in Hperm. unfold mq_expected in Hperm. rewrite map_length in Hperm.
-          specialize (Hcnt (S k) eq_refl). lia.
+        * exfalso. eapply np_not_closed; eauto.
       + eexists. eexists. apply step_recv.
     - destruct (workers_cases ws) as [(w & i & q & H)|[(w & H)|H]].
       + eexists. eexists. apply step_send; [exact H|eapply Hbusy; eauto].
       + destruct Q as [|[i q] Q]; eexists; eexists; [apply step_pull_none|apply step_pull]; exact H.
-      + eexists. eexists. apply step_join. exact H.
+      + eexists. eexists. apply step_join. now apply done_no_held_exited.
     - exfalso. now apply (Hnj out).
+    - exfalso. now apply (Hnpk o).
   Qed.
 
   (* from every reachable state the system can run to completion *)
@@ -423,16 +609,18 @@ Section Inv.
     exists tr' s' out, run s tr' s' /\ mq_main s' = PJoined out.
   Proof.
     intros W j n. induction n as [|n IH]; intros tr s Hj Hnp Hr Hm.
-    - destruct (mq_main s) as [k|out|out] eqn:Hpc.
+    - destruct (mq_main s) as [k|out|out|o] eqn:Hpc.
       + unfold mq_measure in Hm. rewrite Hpc in Hm. cbn [mq_pcweight] in Hm. lia.
       + unfold mq_measure in Hm. rewrite Hpc in Hm. cbn [mq_pcweight] in Hm. lia.
       + exists [], s, out. split; [constructor|exact Hpc].
-    - destruct (mq_main s) as [k|out|out] eqn:Hpc.
+      + exfalso. exact (np_not_panicked W j tr s Hj Hnp Hr o Hpc).
+    - destruct (mq_main s) as [k|out|out|o] eqn:Hpc.
       1,2: destruct (progress W j tr s Hj Hnp Hr) as (e & s1 & Hst); [rewrite Hpc; discriminate|];
         pose proof (step_measure _ _ _ Hst) as Hm1;
         destruct (IH (tr ++ [e]) s1 Hj Hnp (run_snoc _ _ _ _ _ Hr Hst)) as (tr' & s' & o & Hr' & Ho); [lia|];
         exists (e :: tr'), s', o; split; [econstructor; eauto|exact Ho].
-      exists [], s, out. split; [constructor|exact Hpc].
+      + exists [], s, out. split; [constructor|exact Hpc].
+      + exfalso. exact (np_not_panicked W j tr s Hj Hnp Hr o Hpc).
   Qed.
 
   Lemma terminates : forall W j,
@@ -440,7 +628,7 @@ Section Inv.
     exists tr s, run (init W j) tr s /\ mq_main s = PJoined (mq_render_single answer rshow W).
   Proof.
     intros W j Hj Hfo Hnp.
-    destruct (completes_from W j _ [] (init W j) Hj Hnp (run_nil _ _ _ _ _ _) (le_n _))
+    destruct (completes_from W j _ [] (init W j) Hj Hnp (run_nil _ _ _ _ _ _ _) (le_n _))
       as (tr & s & out & Hr & Ho).
     exists tr, s. split; [exact Hr|].
     rewrite Ho. f_equal. eapply byte_identical; eauto.
@@ -455,7 +643,145 @@ Section Inv.
     rewrite (Hnp it (or_introl eq_refl)). rewrite IH; [reflexivity|].
     intros it' Hin. apply Hnp. now right.
   Qed.
+
+  (* ... and with a panicking query it panics (after the lines before the first such query) *)
+  Lemma single_some_panic : forall W,
+    some_panic W -> snd (mq_single R answer panics rshow W) = true.
+  Proof.
+    intros W. induction W as [|it W IH]; intros (it' & Hin & Hp); [destruct Hin|].
+    cbn [mq_single]. destruct (panics (snd it)) eqn:Hit; [reflexivity|].
+    destruct Hin as [->|Hin]; [rewrite Hp in Hit; discriminate|].
+    specialize (IH (ex_intro _ it' (conj Hin Hp))).
+    destruct (mq_single R answer panics rshow W) as [o p]. exact IH.
+  Qed.
+
+  (* ---------- the repaired system: never blocked, a worker's panic reaches the main thread ---------- *)
+
+  (* EVERY state (reachable or not) in which the main thread has neither returned nor panicked has
+     an enabled action; no hypothesis on j, on W or on panics *)
+  Lemma no_block : forall s : state,
+    fx = true -> mq_final s = false -> exists e s', step s e s'.
+  Proof.
+    intros [Q ws ch rs pc] Hfx Hnf. unfold mq_final in Hnf. cbn [mq_main] in Hnf.
+    assert (Hw : (exists w i q, nth_error ws w = Some (WBusy i q))
+                 \/ (exists w, nth_error ws w = Some WIdle) ->
+                 exists e s', step (MQState Q ws ch rs pc) e s').
+    { intros [(w & i & q & H)|(w & H)].
+      - destruct (panics q) eqn:Hp; eexists; eexists;
+          [eapply step_die; eassumption|eapply step_send; eassumption].
+      - destruct Q as [|[i q] Q]; eexists; eexists; [apply step_pull_none|apply step_pull]; exact H. }
+    destruct pc as [[|k]|out|out|o]; try discriminate.
+    - eexists. eexists. apply step_write.
+    - destruct ch as [|[[i q] r] ch]; [|eexists; eexists; apply step_recv].
+      destruct (workers_cases ws) as [H|[H|H]]; [apply Hw; now left|apply Hw; now right|].
+      eexists. eexists. apply step_closed; assumption.
+    - destruct (workers_cases ws) as [H|[H|H]]; [apply Hw; now left|apply Hw; now right|].
+      destruct (done_cases ws H) as [Hall|(w & i & q & Hd & Hall)].
+      + eexists. eexists. apply step_join. exact Hall.
+      + eexists. eexists. eapply step_join_dead; eassumption.
+  Qed.
+
+  (* every state can run on until the main thread has returned or panicked *)
+  Lemma reaches_final : forall n (s : state),
+    fx = true -> mq_measure s <= n -> exists tr s', run s tr s' /\ mq_final s' = true.
+  Proof.
+    intros n. induction n as [|n IH]; intros s Hfx Hm.
+    - destruct (mq_final s) eqn:Hf; [exists [], s; split; [constructor|exact Hf]|].
+      destruct (no_block s Hfx Hf) as (e & s1 & Hst). apply step_measure in Hst. lia.
+    - destruct (mq_final s) eqn:Hf; [exists [], s; split; [constructor|exact Hf]|].
+      destruct (no_block s Hfx Hf) as (e & s1 & Hst).
+      pose proof (step_measure _ _ _ Hst) as Hm1.
+      destruct (IH s1 Hfx) as (tr & s' & Hr & Hf'); [lia|].
+      exists (e :: tr), s'. split; [econstructor; eauto|exact Hf'].
+  Qed.
+
+  (* C15_worker_panic_propagates *)
+  Lemma worker_panic_propagates : forall W j tr s,
+    fx = true -> some_panic W -> run (init W j) tr s ->
+    mq_output s = None
+    /\ ((forall e s', ~ step s e s') -> mq_main s = PPanicked None).
+  Proof.
+    intros W j tr s Hfx Hsp Hr.
+    pose proof (some_panic_no_output W j tr s Hsp Hr) as Ho. split; [exact Ho|].
+    intros Hstuck. destruct (mq_final s) eqn:Hf.
+    - unfold mq_final in Hf. unfold mq_output in Ho.
+      destruct (mq_main s) as [k|out|out|[out|]]; try discriminate. reflexivity.
+    - exfalso. destruct (no_block s Hfx Hf) as (e & s1 & Hst). exact (Hstuck e s1 Hst).
+  Qed.
+
+  (* ... and such runs exist: from every reachable state the main-thread panic can be reached *)
+  Lemma worker_panic_reaches_panic : forall W j tr s,
+    fx = true -> some_panic W -> run (init W j) tr s ->
+    exists tr' s', run s tr' s' /\ mq_main s' = PPanicked None.
+  Proof.
+    intros W j tr s Hfx Hsp Hr.
+    destruct (reaches_final _ s Hfx (le_n _)) as (tr' & s' & Hr' & Hf).
+    exists tr', s'. split; [exact Hr'|].
+    pose proof (some_panic_no_output W j (tr ++ tr') s' Hsp (run_app _ _ _ _ _ Hr Hr')) as Ho.
+    unfold mq_final in Hf. unfold mq_output in Ho.
+    destruct (mq_main s') as [k|out|out|[out|]]; try discriminate. reflexivity.
+  Qed.
+
+  (* the outcome of the repaired function, for every file and every j >= 1: all maximal runs end
+     alike, as the single-thread loop does *)
+  Lemma outcome : forall W j tr s,
+    fx = true -> 1 <= j -> mq_file_order W -> run (init W j) tr s -> (forall e s', ~ step s e s') ->
+    (no_panic W /\ mq_main s = PJoined (mq_render_single answer rshow W))
+    \/ (some_panic W /\ mq_main s = PPanicked None).
+  Proof.
+    intros W j tr s Hfx Hj Hfo Hr Hstuck.
+    destruct (mq_final s) eqn:Hf;
+      [|exfalso; destruct (no_block s Hfx Hf) as (e & s1 & Hst); exact (Hstuck e s1 Hst)].
+    assert (Hdec : no_panic W \/ some_panic W).
+    { clear. induction W as [|it W IH]; [left; intros it []|].
+      destruct (panics (snd it)) eqn:Hp; [right; exists it; split; [now left|exact Hp]|].
+      destruct IH as [Hnp|(it' & Hin & Hp')].
+      - left. intros it' [<-|Hin]; [exact Hp|now apply Hnp].
+      - right. exists it'. split; [now right|exact Hp']. }
+    destruct Hdec as [Hnp|Hsp].
+    - left. split; [exact Hnp|]. unfold mq_final in Hf.
+      destruct (mq_main s) as [k|out|out|o] eqn:Hpc; try discriminate.
+      + f_equal. eapply byte_identical; eauto. unfold mq_output. now rewrite Hpc.
+      + exfalso. exact (np_not_panicked W j tr s Hj Hnp Hr o Hpc).
+    - right. split; [exact Hsp|]. now apply (worker_panic_propagates W j tr s Hfx Hsp Hr).
+  Qed.
 End Inv.
+
+(* the same for the repaired system as such (drop_tx = true) *)
+Lemma no_block_fixed : forall (R : Type) (answer : mq_query -> R) panics rcmp rshow (s : mq_state R),
+  mq_final s = false -> exists e s', mq_step R answer panics rcmp rshow true s e s'.
+Proof. intros R answer panics rcmp rshow s. exact (no_block R answer panics rcmp rshow true s eq_refl). Qed.
+
+Lemma worker_panic_propagates_fixed : forall (R : Type) (answer : mq_query -> R) panics rcmp rshow W j tr s,
+  some_panic panics W ->
+  mq_run R answer panics rcmp rshow true (mq_init R W j) tr s ->
+  mq_output s = None
+  /\ ((forall e s', ~ mq_step R answer panics rcmp rshow true s e s') -> mq_main s = PPanicked None).
+Proof.
+  intros R answer panics rcmp rshow W j tr s.
+  exact (worker_panic_propagates R answer panics rcmp rshow true W j tr s eq_refl).
+Qed.
+
+Lemma worker_panic_reaches_panic_fixed : forall (R : Type) (answer : mq_query -> R) panics rcmp rshow W j tr s,
+  some_panic panics W ->
+  mq_run R answer panics rcmp rshow true (mq_init R W j) tr s ->
+  exists tr' s', mq_run R answer panics rcmp rshow true s tr' s' /\ mq_main s' = PPanicked None.
+Proof.
+  intros R answer panics rcmp rshow W j tr s.
+  exact (worker_panic_reaches_panic R answer panics rcmp rshow true W j tr s eq_refl).
+Qed.
+
+Lemma outcome_fixed : forall (R : Type) (answer : mq_query -> R) panics rcmp rshow W j tr s,
+  1 <= j ->
+  mq_file_order W ->
+  mq_run R answer panics rcmp rshow true (mq_init R W j) tr s ->
+  (forall e s', ~ mq_step R answer panics rcmp rshow true s e s') ->
+  (no_panic panics W /\ mq_main s = PJoined (mq_render_single answer rshow W))
+  \/ (some_panic panics W /\ mq_main s = PPanicked None).
+Proof.
+  intros R answer panics rcmp rshow W j tr s.
+  exact (outcome R answer panics rcmp rshow true W j tr s eq_refl).
+Qed.
 
 (* ---------- a panicking operation: the witness of C15_worker_panic_blocks_refuted ---------- *)
 Definition ref_W : list mq_item := [(0, [1]%Z); (1, [-2147483648]%Z); (2, [2]%Z)]%nat.
@@ -466,17 +792,40 @@ Definition ref_rcmp (_ _ : string) : comparison := Eq.
 Definition ref_show (s : string) : string := s.
 Definition ref_trace : list mq_event :=
   [EPull 0 0; EPull 1 1; ESend 0 0; EDie 1 1; EPull 0 2; ESend 0 2; ERecv 0; ERecv 2; EPullNone 0]%nat.
+(* v0 (drop_tx = false): after ref_trace nothing is enabled *)
 Lemma worker_panic_blocks :
   exists s,
-    mq_run string ref_answer ref_panics ref_rcmp ref_show (mq_init string ref_W 2) ref_trace s
+    mq_run string ref_answer ref_panics ref_rcmp ref_show false (mq_init string ref_W 2) ref_trace s
     /\ mq_main s = PCollect 1
-    /\ (forall e, mq_valid_event string ref_answer ref_panics ref_rcmp ref_show s e = None)
+    /\ (forall e, mq_valid_event string ref_answer ref_panics ref_rcmp ref_show false s e = None)
     /\ mq_single string ref_answer ref_panics ref_show ref_W = (("1,7" ++ mq_nl)%string, true).
 Proof.
-  destruct (mq_replay string ref_answer ref_panics ref_rcmp ref_show (mq_init string ref_W 2) ref_trace)
+  destruct (mq_replay string ref_answer ref_panics ref_rcmp ref_show false (mq_init string ref_W 2) ref_trace)
     as [s|] eqn:E; [|vm_compute in E; discriminate].
   exists s. split; [apply replay_run; exact E|].
   vm_compute in E. injection E as <-. split; [reflexivity|]. split; [|vm_compute; reflexivity].
-  intros [w i|w|w i|i|w i| |]; try reflexivity;
+  intros [w i|w|w i|i|w i| | | |w]; try reflexivity;
     destruct w as [|[|w]]; try reflexivity; destruct w; reflexivity.
+Qed.
+
+(* the repaired system on the same schedule: the same state is reached, and there exactly the
+   main-thread panic is enabled *)
+Lemma worker_panic_fixed_example :
+  exists s,
+    mq_run string ref_answer ref_panics ref_rcmp ref_show true (mq_init string ref_W 2) ref_trace s
+    /\ mq_main s = PCollect 1
+    /\ (forall e s', mq_valid_event string ref_answer ref_panics ref_rcmp ref_show true s e = Some s' ->
+                     e = EClosed /\ mq_main s' = PPanicked None)
+    /\ exists s', mq_valid_event string ref_answer ref_panics ref_rcmp ref_show true s EClosed = Some s'.
+Proof.
+  destruct (mq_replay string ref_answer ref_panics ref_rcmp ref_show true (mq_init string ref_W 2) ref_trace)
+    as [s|] eqn:E; [|vm_compute in E; discriminate].
+  exists s. split; [apply replay_run; exact E|].
+  vm_compute in E. injection E as <-. split; [reflexivity|]. split; [|eexists; vm_compute; reflexivity].
+  intros [w i|w|w i|i|w i| | | |w] s' H; try (vm_compute in H; discriminate).
+  - destruct w as [|[|w]]; try (vm_compute in H; discriminate). destruct w; vm_compute in H; discriminate.
+  - destruct w as [|[|w]]; try (vm_compute in H; discriminate). destruct w; vm_compute in H; discriminate.
+  - destruct w as [|[|w]]; try (vm_compute in H; discriminate). destruct w; vm_compute in H; discriminate.
+  - destruct w as [|[|w]]; try (vm_compute in H; discriminate). destruct w; vm_compute in H; discriminate.
+  - vm_compute in H. injection H as <-. split; reflexivity.
 Qed.
